@@ -22,7 +22,7 @@ impl Stream {
 }
 
 /// Number of encodings.
-pub const NENC: u8 = 4;
+pub const NENC: u8 = 5;
 
 pub fn serialize(w: &g::Wd, enc: u8) -> Result<Stream, String> {
     match enc {
@@ -40,6 +40,13 @@ pub fn serialize(w: &g::Wd, enc: u8) -> Result<Stream, String> {
                 Ok(t) => Ok(Stream::Tokens { readable: enc == 0, tokens: t.0 }),
                 Err(e) => Err(format!("{e}")),
             }
+        }
+        4 => {
+            // Through `serde_json::Value`: a self-describing format whose maps do not keep the
+            // order of the keys (they come back sorted by name), so every struct of the stream
+            // reaches the library with its fields in another order than it wrote them.
+            let v = serde_json::to_value(w).map_err(|e| format!("{e}"))?;
+            serde_json::to_vec(&v).map(Stream::Json).map_err(|e| format!("{e}"))
         }
         _ => serde_json::to_vec(w).map(Stream::Json).map_err(|e| format!("{e}")),
     }
